@@ -154,3 +154,80 @@ pub fn err_kind2<E: std::fmt::Debug>(e: &E) -> String {
     }
     out.trim_end_matches('.').to_string()
 }
+
+// ------------------------------------------------------------------------------------------
+/// Recording wrapper around the real compiler: sees every round of `resolve_tx`
+/// (the observation seam for the resolve loop, C05 / C20, and for the bound inputs, C04).
+pub struct RecCompiler {
+    pub inner: Compiler,
+    pub log: Mutex<Vec<Value>>,
+    pub project_rounds: bool,
+}
+
+impl RecCompiler {
+    pub fn new(inner: Compiler) -> Self {
+        Self { inner, log: Mutex::new(vec![]), project_rounds: true }
+    }
+    pub fn take_log(&self) -> Vec<Value> {
+        std::mem::take(&mut *self.log.lock().unwrap())
+    }
+}
+
+fn refs_of(e: &tx3_tir::model::v1beta0::Expression) -> Vec<Value> {
+    use tx3_tir::model::v1beta0::Expression as E;
+    let mut v: Vec<(Vec<u8>, u32)> = match e {
+        E::UtxoSet(s) => s.iter().map(|u| (u.r#ref.txid.clone(), u.r#ref.index)).collect(),
+        E::UtxoRefs(r) => r.iter().map(|r| (r.txid.clone(), r.index)).collect(),
+        _ => vec![],
+    };
+    v.sort();
+    v.into_iter().map(|(t, i)| json!({"txid": bytes_to(&t), "index": i})).collect()
+}
+
+impl tx3_tir::compile::Compiler for RecCompiler {
+    type CompilerOp = tx3_tir::model::v1beta0::CompilerOp;
+    type Expression = tx3_tir::model::v1beta0::Expression;
+
+    fn compile(
+        &mut self,
+        tir: &tx3_tir::encoding::AnyTir,
+    ) -> Result<tx3_tir::compile::CompiledTx, tx3_tir::compile::Error> {
+        let had_mem = self.inner.latest_tx_body.is_some();
+        let tx3_tir::encoding::AnyTir::V1Beta0(tx) = tir;
+        let bound: Vec<Value> = tx.inputs.iter().map(|i| json!({"name": i.name, "refs": refs_of(&i.utxos)})).collect();
+        let coll: Vec<Value> = tx.collateral.iter().flat_map(|c| refs_of(&c.utxos)).collect();
+        let res = self.inner.compile(tir);
+        let ev = match &res {
+            Ok(c) => {
+                let hctx = crate::ledger::HashCtx { cost_models: &self.inner.pparams.cost_models };
+                let decoded = if self.project_rounds {
+                    crate::ledger::project(&c.payload, &c.hash, Some(&hctx))
+                } else {
+                    Value::Null
+                };
+                json!({"ev": "Round", "had_mem": had_mem, "bound": bound, "collateral": coll, "outcome": "ok",
+                       "reported": int_to(c.fee as i128), "len": c.payload.len(), "digest": hex::encode(crate::ledger::blake2b256(&c.payload)),
+                       "hash": hex::encode(&c.hash), "decoded": decoded})
+            }
+            Err(e) => json!({"ev": "Round", "had_mem": had_mem, "bound": bound, "collateral": coll, "outcome": "err", "kind": err_kind(e)}),
+        };
+        self.log.lock().unwrap().push(ev);
+        res
+    }
+
+    fn reduce_op(&self, op: Self::CompilerOp) -> Result<Self::Expression, tx3_tir::reduce::Error> {
+        let is_min = matches!(op, tx3_tir::model::v1beta0::CompilerOp::ComputeMinUtxo(_));
+        let had_mem = self.inner.latest_tx_body.is_some();
+        let res = self.inner.reduce_op(op);
+        if is_min {
+            let out = match &res {
+                Ok(tx3_tir::model::v1beta0::Expression::Assets(a)) if a.len() == 1 => {
+                    a[0].amount.as_number().map(int_to).unwrap_or(Value::Null)
+                }
+                _ => Value::Null,
+            };
+            self.log.lock().unwrap().push(json!({"ev": "MinUtxo", "had_mem": had_mem, "result": out, "ok": res.is_ok()}));
+        }
+        res
+    }
+}
